@@ -31,7 +31,7 @@ for sid in sorted(os.listdir(os.path.join(root, "seeded"))):
         "patch": "patch.diff",
         "demonstration": {"file": "demo/" + os.path.basename(demo.get("file", "")), "copy_to": demo.get("copy_to"), "command": demo.get("command")},
         "confirmed_by_me": {
-            "how": "tools/confirm_seed.sh in the scratch worktree /tmp/seed-%s (removed afterwards; second-wave seeds C<nn>-2 used /tmp/seed-C<nn> again, third-wave seeds /tmp/seed3-C<nn>, fourth-wave /tmp/seed4-C<nn>): git apply patch.diff; cargo test --workspace --no-fail-fast --offline; demonstration copied in and run with the change; git apply -R; demonstration run without the change" % sid,
+            "how": "tools/confirm_seed.sh in the scratch worktree /tmp/seed-%s (removed afterwards; second-wave seeds C<nn>-2 used /tmp/seed-C<nn> again, third-wave seeds /tmp/seed3-C<nn>, fourth-wave /tmp/seed4-C<nn>, fifth /tmp/seed5-C<nn>): git apply patch.diff; cargo test --workspace --no-fail-fast --offline; demonstration copied in and run with the change; git apply -R; demonstration run without the change" % sid,
             "result": confirm.get(sid, "not recorded"),
         },
         "checks_run_against_it": {
